@@ -133,7 +133,13 @@ func (p *flowProto) genTrunc(r *rand.Rand, n int, w *bufio.Writer) {
 				}
 				u = cat(be16(id), be16(4+len(body)), body)
 			case 1: // reserved set id
-				u = cat(be16(p.reserved[r.Intn(len(p.reserved))]), be16(4+len(body)), body)
+				id := p.reserved[r.Intn(len(p.reserved))]
+				if p.isIPFIX && r.Intn(6) == 0 {
+					// IPFIX set id 1 ("not used", RFC 7011 section 3.3.2) is decoded as data with the zero template: the same
+					// path as a template without fields, skipped by its length since the F30 repair (id 0 stays fatal)
+					id = 1
+				}
+				u = cat(be16(id), be16(4+len(body)), body)
 			default: // data for the template that names an element missing from the model
 				body = rndBytes(r, 12*(1+r.Intn(3)))
 				u = cat(be16(400), be16(4+len(body)), body)
